@@ -60,7 +60,7 @@ def names_of(k, ec):
     return [f"lon{k}", f"lat{k}"]
 
 
-def add_ecs(cube, ecs, shape):
+def add_ecs(cube, ecs, shape, voff=0.0):
     from ndcube.extra_coords.table_coord import QuantityTableCoordinate
     from ndcube import ExtraCoords
     for k, ec in enumerate(ecs):
@@ -77,7 +77,7 @@ def add_ecs(cube, ecs, shape):
             continue
         axes = ec["axes"]
         n = shape[axes[0]]
-        v = np.arange(n, dtype=float) ** 2 + 3 * np.arange(n) + 10 * k
+        v = np.arange(n, dtype=float) ** 2 + 3 * np.arange(n) + 10 * k + voff
         nm = names_of(k, ec)
         if kind == "quantity":
             cube.extra_coords.add(nm[0], axes[0], v * u.m, physical_types=f"custom:q{k}")
